@@ -35,9 +35,14 @@ var solverDefs = []solverDef{
 	{"cvc5", func(f string, ms int) []string {
 		return []string{"cvc5", "--lang=smt2", fmt.Sprintf("--tlimit=%d", ms), f}
 	}},
+	// cvc5 with its exact bit-vector-to-integer translation (modular arithmetic made explicit): decides
+	// 64-bit linear-arithmetic goals that bit-blasting cannot
+	{"cvc5-int", func(f string, ms int) []string {
+		return []string{"cvc5", "--lang=smt2", "--solve-bv-as-int=sum", fmt.Sprintf("--tlimit=%d", ms), f}
+	}},
 }
 
-var solverSem = make(chan struct{}, 14)
+var solverSem = make(chan struct{}, 16)
 
 // cpuSeconds reads utime+stime of a process from /proc (clock ticks are 100/s on Linux).
 func cpuSeconds(pid int) float64 {
